@@ -17,7 +17,7 @@ ID = "C06"
 META = {
     "rule": "sub-products: A = family F(n,m) WITHOUT well-posedness filter x every fixed subset (none, one, several, all, fixed landmarks, isolated fixed vertices) x "
     "fix_first_pose x max_iter alphabet; D = far-off initial guesses (diverging runs) x every fixed subset x max_iter 20; S = solver-fault scripts: every placement of 0, 1 and 2 "
-    "deviating answers {all-NaN, garbage (1e300/inf) in the free rows, raise} within 5 solver calls x spanning graphs x every non-empty fixed subset; P = all vertices initialised from ONE shared pose object x every fixed subset (compared bitwise with a twin that uses distinct equal objects); H = histories of 2..3 "
+    "deviating answers {all-NaN, garbage (1e300/inf) in the free rows, raise} within 5 solver calls x spanning graphs x every non-empty fixed subset; N = every edge replaced by its numerical-Jacobian twin (custom-edge path) x every non-empty fixed subset, one iteration vs the reduced step of the analytic graph; P = all vertices initialised from ONE shared pose object x every fixed subset (compared bitwise with a twin that uses distinct equal objects); H = histories of 2..3 "
     "consecutive optimize calls with every (fixed subset, fix_first_pose) chosen per call. Oracles: fixed poses bitwise unchanged in every outcome incl. exceptions; fixed flags exactly "
     "as documented; well-posed reduced problems: free vertices = reference reduced Gauss-Newton step (1 iteration) / closed-form reduced WLS optimum (R^n) and all poses finite. "
     "non-trivial = at least one fixed vertex AND (a free vertex moved or the solve failed)",
@@ -25,7 +25,7 @@ META = {
         "solver seam = module global graphslam.graph.spsolve; if it is not called the fault sub-product is skipped and evidence says solver_seam_active=false",
         "fault answers are restricted to what a sparse direct solver can produce (NaN vector for singular systems, garbage in coupled rows, an exception); a solver that returns non-zero for decoupled identity rows is not modelled",
     ],
-    "required_classes": ["shared_pose_object", "all_fixed", "none_fixed", "isolated_fixed_vertex", "fixed_landmark", "singular_natural", "several_fixed", "fault:nan", "fault:raise", "fault:garbage", "history", "diverged_or_nonfinite", "ffp_true", "ffp_false", "reduced_step_checked", "reduced_wls_checked"],
+    "required_classes": ["numeric_twin_edges", "shared_pose_object", "all_fixed", "none_fixed", "isolated_fixed_vertex", "fixed_landmark", "singular_natural", "several_fixed", "fault:nan", "fault:raise", "fault:garbage", "history", "diverged_or_nonfinite", "ffp_true", "ffp_false", "reduced_step_checked", "reduced_wls_checked"],
     "bounds": {"quick": "A: n=2 m<=2, n=3 m<=2, max_iter in {1,3}; S: 5 solver calls, <=2 deviations; H: 2 calls", "thorough": "A: n=2 m<=3, n=3 m<=2 x 3 vertex orders, max_iter in {1,2,3,5,20}; H: 3 calls"},
 }
 
@@ -47,6 +47,7 @@ def chunks(tier, seed):
         for ti, types in enumerate(F.type_multisets(n)):
             if len(set(types)) == 1:
                 out.append(("P", n, ti))
+            out.append(("N", n, ti))
     return out
 
 
@@ -115,6 +116,12 @@ def run_chunk(chunk, tier, seed):
             for fixed in itertools.product((False, True), repeat=n):
                 for ffp in (False, True):
                     _do(acc, {"t": "P", "types": types, "seed": seed, "edges": ms, "fixed": list(fixed), "ffp": ffp, "max_iter": 2, "vorder": list(range(n))})
+    elif sub == "N":
+        # every edge replaced by its numerical-Jacobian twin (custom-edge code path): fixed vertices listed first / middle / last in the edges
+        for ms in F.edge_multisets(len(cands), 2):
+            for fixed in itertools.product((False, True), repeat=n):
+                if any(fixed):
+                    _do(acc, {"t": "N", "types": types, "seed": seed, "edges": ms, "fixed": list(fixed), "ffp": False, "max_iter": 1, "vorder": list(range(n))})
     elif sub == "H":
         ms = _spanning(types, cands)
         if ms is None:
@@ -208,6 +215,8 @@ def _eval(case):
             return _eval_hist(case)
         if case["t"] == "P":
             return _eval_shared(case)
+        if case["t"] == "N":
+            return _eval_numeric(case)
         return _eval_single(case)
     except Exception as ex:
         import traceback
@@ -423,3 +432,46 @@ def _eval_shared(case):
                 break
     moved = any(a1[i][2] != before[i][2] for i in range(n))
     return msgs, {"outcome": "shared:" + out[0], "classes": ["shared_pose_object"], "calls": 2, "ref_compared": 1, "nontrivial": moved and any(eff)}
+
+
+def _eval_numeric(case):
+    """numeric-Jacobian twins of every edge: fixed vertices stay put, free vertices take the reduced step of the ANALYTIC graph."""
+    import copy as _c
+
+    msgs = []
+    spec = F.make_spec(case["types"], case["seed"], case["edges"], case["fixed"], case["vorder"], None, None)
+    g, verts, edges = GB.build(spec)
+    eff = [bool(f) for f in case["fixed"]]
+    ref = gn.step(verts, edges, eff)
+    nspec = _c.deepcopy(spec)
+    for e in nspec["edges"]:
+        e["type"] = "num" + e["type"]
+    gN, vN, eN = GB.build(nspec)
+    before = GB.snapshot(vN)
+    out = "returned"
+    try:
+        GB.optimize(gN, max_iter=1, fix_first_pose=False)
+    except Exception as ex:
+        out = "raised:" + type(ex).__name__
+    after = GB.snapshot(vN)
+    _check_fixed(msgs, before, after, eff, "optimize(max_iter=1) on numerical-Jacobian edges [%s]" % out)
+    ratio = 0.0
+    compared = 0
+    if ref["wellposed"] and ref["cond"] < 1e4:
+        compared = 1
+        if out != "returned":
+            msgs.append("well-posed reduced problem on numerical-Jacobian edges: optimize %s" % out)
+        dxn = max([float(np.max(np.abs(d))) for d in ref["dx"] if d is not None] or [0.0])
+        tol = 2e-4 * (1.0 + dxn) * max(1.0, ref["cond"] / 10.0)
+        for i, v in enumerate(verts):
+            if eff[i]:
+                continue
+            if not all(np.isfinite(after[i][2])):
+                msgs.append("numerical-Jacobian edges, fixed=%r: free vertex id %r is not finite after one iteration of a well-posed problem" % (eff, before[i][0]))
+                continue
+            exp = I.comps(v.pose + ref["dx"][i])
+            d = G.phys_diff(before[i][1], after[i][2], exp)
+            ratio = max(ratio, d / tol)
+            if d > tol:
+                msgs.append("numerical-Jacobian edges, fixed=%r: free vertex id %r = %r, reduced Gauss-Newton step of the analytic graph gives %r (|diff| %.3g > %.3g)" % (eff, before[i][0], after[i][2], exp, d, tol))
+    return msgs, {"outcome": "numeric:" + out, "classes": ["numeric_twin_edges"], "calls": 1, "ref_compared": compared, "ratio": ratio, "nontrivial": compared == 1}
